@@ -26,6 +26,24 @@ CLAIMED = {
              'strings, .fill/.zero/.zerountil are assembled by the real CLI under both endiannesses and terminator values; every '
              'line\'s bytes in the image must equal the byte model. One open known finding (character literal first in a list).',
         note='Trusted: the byte rules in vf/oracles/c11.py + vf/model/layout.py; strings avoid ";" and unescaped delimiters.'),
+    'C02': dict(
+        category='exploration', design_ref='DESIGN.md §3 C02',
+        technique='runtime monitoring: two-pass layout reference model vs the listing address column and label probes in the '
+                  'image of real CLI runs; reserved==emitted and zone-cursor invariant probes',
+        text='Structured generated programs (labels of three scopes, constants, instructions of differing sizes, data, fills, '
+             'origins incl. backward and zone-relative, .align, zone switches, muted and excluded lines, forward/backward label '
+             'probes) are assembled by the real CLI; every line\'s listing address and the whole image must equal the layout '
+             'model; .align sweep over page sizes x addresses. Held on the executions observed only.',
+        note='Trusted: vf/model/layout.py, the fixed layout ISA; labels directly followed by an origin/align/zone directive are '
+             'not generated.'),
+    'C04': dict(
+        category='exploration', design_ref='DESIGN.md §3 C04',
+        technique='runtime monitoring: interval-geometry oracle over real CLI runs; placements by every means in random '
+                  'source order',
+        text='2..6 byte-producing items placed by .org, zone-relative .org, overlapping predefined / source-created zones, '
+             '.align, .zerountil and predefined data in every pair geometry and source order; any positive-length overlap must '
+             'be rejected, disjoint programs must be accepted with every byte in the image. thorough: exhaustive pairs grid.',
+        note='Trusted: interval arithmetic in vf/model/layout.py; zero-length-inside and muted overlaps are DONT_CARE.'),
     'C03': dict(
         category='exploration', design_ref='DESIGN.md §3 C03',
         technique='runtime monitoring: memory-map model oracle over real CLI runs with start/end/fill windows; audit-hook '
